@@ -164,8 +164,6 @@ class _P:
                 break
             if c == 0x5C and j != self.i:
                 raise SyntaxErr(f"backslash inside atom at {j}")
-            if c >= 0x80:
-                raise SyntaxErr(f"8-bit octet in atom at {j}")
             j += 1
         if depth:
             raise SyntaxErr("unbalanced [ in atom")
